@@ -154,7 +154,7 @@ Definition sig_action (a:option (list N)) : option (list N) :=
   | Some s => if list_eqb N.eqb (lower s) s_no_action then None else Some (lower s)
   end.
 Inductive defer3 := InitiallyDeferrable | Deferrable | NotDeferrable.
-Definition s_deferred : list N := [100;101;102;101;114;114;101;100].
+Definition s_deferred : list N := [100;101;102;101;114;114;101;100]%N.
 (* "initially_deferrable" if initially and initially.lower() == "deferred" else "deferrable" if deferrable else "not deferrable" *)
 Definition sig_defer (o:fkopts) : defer3 :=
   if match o_initially o with Some s => list_eqb N.eqb (lower s) s_deferred | None => false end then InitiallyDeferrable
@@ -170,7 +170,7 @@ Definition compare_foreign_keys (tn:N) (conn_table metadata_table:option table) 
   match conn_table, metadata_table with
   | Some c, Some m =>
       (* removed signatures: DropConstraintOp by name *)
-      flat_map (fun cf => if existsb (fk_sig_eqb cf) (t_fks m) then [] else [OpDropFk tn (f_name cf)]) (t_fks c)
+      flat_map (fun cf => if existsb (fk_sig_eqb cf) (t_fks m) then [] else [OpDropFk tn (f_name cf) (f_named cf)]) (t_fks c)
       (* added signatures *)
       ++ flat_map (fun mf => if existsb (fk_sig_eqb mf) (t_fks c) then [] else [OpAddFk tn mf]) (t_fks m)
   | _, _ => []                  (* CREATE TABLE / DROP TABLE: foreign keys are inline *)
